@@ -367,7 +367,7 @@ pub fn subs() -> Vec<Box<dyn Sub>> {
         }),
         Box::new(PropSub::<Case> {
             name: "size-sweep",
-            rule: "every variable-length kind (cmdline, boot-loader name, module, mmap, framebuffer, ELF, SMBIOS, network, EFI map; header information request) as a stand-alone tag ending near a PROT_NONE page: layout [tag][padding 0x5A][marker tag 0xA5]; enumerated: every declared size 0..=image+16 for content steerings {0,2,5} (thorough {0,1,2,3,5,9}) and variants (framebuffer type 0/1/2, ELF32/64, EFI stride 40/48/56); generated: longer contents, random sizes. Oracle: size below the fixed part / remainder / beyond the slice => rejected; otherwise the exposed part is exactly bytes[fixed..size] (offset, length, element values; network via its Debug byte list, EFI map via Debug buf_len and the iterator, palette/RGB via buffer_type). Non-trivial = size not a multiple of 8, or within one element of the fixed part or of the image end; distinct by hash(image, kind)",
+            rule: "every variable-length kind (cmdline, boot-loader name, module, mmap, framebuffer, ELF, SMBIOS, network, EFI map; header information request) as a stand-alone tag ending near a PROT_NONE page: layout [tag][padding 0x5A][marker tag 0xA5]; enumerated: every declared size 0..=image+16 for content steerings {0,2,5} (thorough {0,1,2,3,5,9}) and variants (framebuffer type 0/1/2, ELF32/64, EFI stride 40/48/56); generated: longer contents, random sizes. Oracle: size below the fixed part / remainder / beyond the slice => rejected; otherwise the exposed part is exactly bytes[fixed..size] (offset, length, element values; network via its Debug byte list, EFI map via Debug buf_len and the iterator, palette/RGB via buffer_type); ELF additionally with string-table indices that have an ELF meaning (0xffff, 0xfff1, 0xfff2, 0xff00) or lie at/behind the last header x sh_link of header 0 x four sizes: a string-table header behind the declared extent => sections() refuses or no name() yields a value. Non-trivial = size not a multiple of 8, or within one element of the fixed part or of the image end; distinct by hash(image, kind)",
             profiles: Profiles::Both,
             quick: 3000,
             thorough: 100000,
